@@ -259,7 +259,7 @@ func c01Partial(c *Ctx) {
 func leavesLoop(pt Pt, l *Loop) (bool, []*ssa.BasicBlock) {
 	seen := map[wstate]bool{}
 	parent := map[*ssa.BasicBlock]*ssa.BasicBlock{}
-	stack := []wstate{{pt.B, pt.I}}
+	stack := []wstate{{pt.B, pt.I, nil}}
 	for len(stack) > 0 {
 		s := stack[len(stack)-1]
 		stack = stack[:len(stack)-1]
@@ -294,7 +294,7 @@ func leavesLoop(pt Pt, l *Loop) (bool, []*ssa.BasicBlock) {
 			if _, ok := parent[succ]; !ok && succ != s.b {
 				parent[succ] = s.b
 			}
-			stack = append(stack, wstate{succ, 0})
+			stack = append(stack, wstate{succ, 0, nil})
 		}
 	}
 	return false, nil
